@@ -291,9 +291,11 @@ class Melody(events_lib.SimpleEventSequence):
         quantized_sequence.quantization_info.steps_per_quarter)
 
     # Sort track by note start times, and secondarily by pitch descending.
+    # Drum notes (if `filter_drums`) and 0 velocity notes are ignored.
     notes = sorted([n for n in quantized_sequence.notes
                     if n.instrument == instrument and
-                    n.quantized_start_step >= search_start_step],
+                    n.quantized_start_step >= search_start_step and
+                    not (filter_drums and n.is_drum) and n.velocity],
                    key=lambda note: (note.quantized_start_step, -note.pitch))
 
     if not notes:
@@ -304,13 +306,6 @@ class Melody(events_lib.SimpleEventSequence):
         notes[0].quantized_start_step -
         (notes[0].quantized_start_step - search_start_step) % steps_per_bar)
     for note in notes:
-      if filter_drums and note.is_drum:
-        continue
-
-      # Ignore 0 velocity notes.
-      if not note.velocity:
-        continue
-
       start_index = note.quantized_start_step - melody_start_step
       end_index = note.quantized_end_step - melody_start_step
 
